@@ -265,6 +265,9 @@ class Path(object):
         self.last_ins = last_ins
         self.mem = st.mem
         self.env = st.env
+        self.ver = st.ver
+        self.wild = st.wild
+        self.escaped = st.escaped
 
     def calls(self, name=None):
         return [e for e in self.events if e.kind == 'call' and (name is None or e.name == name)]
@@ -851,11 +854,12 @@ class Explorer(object):
                 # drop callee's 'ret' event marker from the flow but keep it labelled
                 s2.assume = list(p.assume)
                 s2.visits = dict(saved_visits)
-                s2.ver = dict(st.ver)
-                s2.wild = st.wild + 1
+                # the callee's body was explored in place: memory knowledge continues from where its path ended
+                s2.ver = dict(p.ver)
+                s2.wild = p.wild
                 s2.prev = saved_prev
                 s2.uid = st.uid
-                s2.escaped = st.escaped
+                s2.escaped = p.escaped
                 s2.trace = list(saved_trace)
                 if ins.res:
                     s2.env[ins.res] = p.retval if p.retval is not None else ('undef',)
